@@ -11,7 +11,7 @@ import itertools
 
 from mc.engine.core import Collector, Result, Violation
 
-BOUNDS = {"quick": dict(nmax=4, steps=(None, 1, 2, 3)), "thorough": dict(nmax=7, steps=(None, 1, 2, 3, 5))}
+BOUNDS = {"quick": dict(nmax=6, steps=(None, 1, 2, 3)), "thorough": dict(nmax=10, steps=(None, 1, 2, 3, 5))}
 
 
 def _mk_handle(n):
@@ -102,6 +102,59 @@ def check_unknown():
                 fails.append((f"unknown:{name}", f"{name} on a handle without count -> {_eval(f)}, expected ValueError"))
         if node.out_port() != OutPort(node, 0):
             fails.append(("unknown:out_port", "out_port() is not output 0"))
+    return fails
+
+
+def history_cases(depth):
+    """All add_node(count)/delete_node histories up to `depth` over <=3 live non-root nodes."""
+    counts = [None, 0, 2, 3]
+
+    def rec(hist, live):
+        yield hist
+        if len(hist) == depth:
+            return
+        if len(live) < 3:
+            for c in counts:
+                yield from rec([*hist, ["add", c]], live + [len(hist)])
+        for i in range(len(live)):
+            yield from rec([*hist, ["del", i]], live[:i] + live[i + 1 :])
+
+    yield from rec([], [])
+
+
+def check_history(hist):
+    """Handles returned by the graph after deletions / index reuse carry exactly the count they were
+    created with (or none)."""
+    from hugr import ops
+    from hugr.hugr import Hugr
+    from hugr.hugr.node_port import OutPort
+
+    h = Hugr()
+    live = []
+    fails = []
+    for step, ev in enumerate(hist):
+        if ev[0] == "add":
+            n = h.add_node(ops.Custom(f"h{step}"), h.root, ev[1])
+            live.append(n)
+            reused = "reused-index" if any(e[0] == "del" for e in hist[:step]) else "fresh-index"
+            if ev[1] is None:
+                r = _eval(lambda: list(n))
+                if r != ("exc", ValueError):
+                    fails.append((f"history:{reused}:unknown-count-iterates", f"{hist[: step + 1]}: handle created without a count iterates {r}"))
+                r = _eval(lambda: n[5])
+                if r != ("ok", OutPort(n, 5)):
+                    fails.append((f"history:{reused}:unknown-count-index", f"{hist[: step + 1]}: handle[5] -> {r}"))
+            else:
+                r = _eval(lambda: list(n))
+                if r != ("ok", [OutPort(n, i) for i in range(ev[1])]):
+                    fails.append((f"history:{reused}:count", f"{hist[: step + 1]}: handle created with count {ev[1]} iterates {r}"))
+            kids = [c for c in h.children() if c.idx == n.idx]
+            if len(kids) != 1:
+                fails.append(("history:children", f"{hist[: step + 1]}: children() lists the new node {len(kids)} times"))
+            elif ev[1] is not None and _eval(lambda: len(list(kids[0]))) != ("ok", ev[1]):
+                fails.append((f"history:{reused}:children-handle", f"{hist[: step + 1]}: children() handle iterates {_eval(lambda: len(list(kids[0])))}, expected {ev[1]}"))
+        else:
+            h.delete_node(live.pop(ev[1]))
     return fails
 
 
@@ -380,6 +433,11 @@ def run(tier: str, seed: int) -> Result:
             col.sample({"n": n, "slice": expr})
     for sig, msg in check_unknown():
         col.add(sig, msg, {"unknown": True})
+    n_hist = 0
+    for hist in history_cases(4 if tier == "quick" else 5):
+        n_hist += 1
+        for sig, msg in check_history(hist):
+            col.add(sig, msg, {"history": hist})
     eqf, n_eq = check_eq_hash()
     for sig, msg in eqf:
         col.add(sig, msg, {"eq": True})
@@ -391,7 +449,7 @@ def run(tier: str, seed: int) -> Result:
         for sig, msg in fails:
             col.add(sig, msg, {"builder": name, "tier": tier})
     col.sample({"builder_case": bc[0][0]})
-    total = n_cases + n_eq + n_handles + 1
+    total = n_cases + n_eq + n_handles + n_hist + 1
     cov = {
         "states": len(nontrivial) + n_handles,
         "transitions": total,
@@ -405,6 +463,7 @@ def run(tier: str, seed: int) -> Result:
         "samples": col.samples,
         "exhaustive": True,
         "index_cases": n_cases,
+        "add_delete_histories": n_hist,
         "eq_hash_cases": n_eq,
         "builder_scenarios": len(bc),
         "builder_handles_checked": n_handles,
@@ -420,6 +479,8 @@ def replay(case) -> list[Violation]:
         if kind == "slice":
             expr = tuple(expr)
         out = check_index_case(n, kind, expr)
+    elif "history" in case:
+        out = check_history(case["history"])
     elif "unknown" in case:
         out = check_unknown()
     elif "eq" in case:
